@@ -207,8 +207,9 @@ def run(ck, w):
             ck.fail(o, mf.name, "addrs not empty", "addrs derives from %s" % flow.origin_summary(ao))
         # seconds and nanos come from the respective components
         so = [e for e in mf.events if e.bb in mf.live and e.name in ("jiff::Timestamp::as_second", "jiff::Timestamp::subsec_nanosecond")]
+        whole = any(e.name in ("jiff::Timestamp::as_nanosecond", "jiff::Timestamp::as_microsecond") for e in mf.events if e.bb in mf.live)
         helper = [e for e in mf.events if e.bb in mf.live and "unix_seconds_and_nanos" in e.name]
-        if len({e.name for e in so}) < 2 and not helper:
+        if len({e.name for e in so}) < 2 and not helper and not whole:
             good = False
             ck.fail(o, mf.name, "time component dropped", "metadata_from does not read both seconds and sub-second nanos")
         if good:
@@ -318,7 +319,9 @@ def run(ck, w):
                         # a path through the fix that never decrements the seconds
                         if r in b.reachable(f, removed_nodes=subs) and f in b.reachable(src.bb, removed_nodes=subs):
                             borrow_bad.append((b, f))
-    ck.floor("C01.4.n", "reads of Timestamp::subsec_nanosecond", n_src, 1)
+    n_total = sum(1 for b in rules.user_bodies(lib) for e in b.events if e.bb in b.live and e.name in (
+        "jiff::Timestamp::as_nanosecond", "jiff::Timestamp::as_microsecond") and not b.file.startswith("src/test_fixtures"))
+    ck.floor("C01.4.n", "reads of Timestamp::subsec_nanosecond (or of the whole time as one signed number)", n_src + n_total, 1)
     if bad:
         for b, src, sinks in bad:
             ck.fail(o, b.root, "signed nanos reach %s" % sinks[0][0],
@@ -369,7 +372,8 @@ def run(ck, w):
         names = set()
         for b in fam:
             names |= {e.name for e in b.events if e.bb in b.live}
-        if not ({"jiff::Timestamp::as_second", "jiff::Timestamp::subsec_nanosecond"} <= names):
+        if not ({"jiff::Timestamp::as_second", "jiff::Timestamp::subsec_nanosecond"} <= names) and \
+                not ({"jiff::Timestamp::as_nanosecond", "jiff::Timestamp::as_microsecond"} & names):
             good = False
             ck.fail(o, tf.name, "time component dropped", "to_file_time reads %s" % sorted(n for n in names if "Timestamp" in n))
         fields = set()
@@ -385,6 +389,7 @@ def run(ck, w):
     if good:
         ck.ok(o)
 
+    _recorded_from_source(ck, w)
     _append_only(ck, w)
     _content_path(ck, w)
     _walk_does_not_follow(ck, w)
@@ -406,6 +411,55 @@ def run(ck, w):
         else:
             bad_bb = [bb for bb in oks if not b.must_pass_edges(edges, bb)][0]
             ck.fail(o, fn, "Ok without recording the entry", "path: %s" % rules.witness(b, bad_bb, removed_edges=edges))
+
+
+def _recorded_from_source(ck, w):
+    """C01.3e: what is recorded for an entry is the CURRENT source metadata: every entry handed to the index writer
+    (or the combiner) by copy_dir / copy_symlink / copy_file was built by IndexEntry::metadata_from(source_entry);
+    from the basis entry only the block addresses may be taken."""
+    lib = w.lib
+    o = ck.ob("C01.3e", "copy_dir / copy_symlink / copy_file record IndexEntry::metadata_from(source_entry); only addresses come from the basis entry")
+    n = 0
+    problems = []
+    for fn in ("backup::BackupWriter::copy_dir", "backup::BackupWriter::copy_symlink", "backup::BackupWriter::copy_file"):
+        b = w.body(fn)
+        recs = rules.creators_of(b, "index::write::IndexWriter::push_entry") + rules.creators_of(b, "backup::FileCombiner::push_file")
+        for e in recs:
+            # push_entry(self, entry) / push_file(self, source_entry, index_entry, from_file, monitor)
+            n += 1
+            if not e.name.endswith("push_entry"):
+                # the combiner builds the entry itself: it must be given the source entry
+                psrc = flow.origins_x(lib, b, e.args[1]) if len(e.args) > 1 else set()
+                if not any(x[0] in ("param", "upvar") and x[1] == "source_entry" for x in psrc):
+                    problems.append((fn, "push_file is not given the source entry", e))
+                continue
+            arg = e.args[1]
+            src = flow.origins_x(lib, b, arg)
+            calls = flow.origin_calls(src)
+            if "index::entry::IndexEntry::metadata_from" not in calls:
+                problems.append((fn, "an entry is recorded that was not built by metadata_from(source_entry)", e))
+                continue
+            basis = [x for x in src if x[0] in ("param", "upvar") and x[1] == "basis_entry" and "addrs" not in x[2]]
+            if basis:
+                problems.append((fn, "a recorded entry takes more than the addresses from the basis entry", e))
+        for mf in rules.creators_of(b, "index::entry::IndexEntry::metadata_from"):
+            msrc = flow.origins_x(lib, b, mf.args[0])
+            if not any(x[0] in ("param", "upvar") and x[1] == "source_entry" for x in msrc):
+                problems.append((fn, "metadata_from is not given the source entry", mf))
+    pf = w.body("backup::FileCombiner::push_file")
+    mfs = rules.creators_of(pf, "index::entry::IndexEntry::metadata_from")
+    if not mfs or not all(any(x[0] in ("param", "upvar") and x[1] == "entry" for x in flow.origins_x(lib, pf, m.args[0])) for m in mfs):
+        problems.append(("backup::FileCombiner::push_file", "push_file does not build its entry with metadata_from(entry)", (mfs or [None])[0]))
+    ck.floor("C01.3e.n", "entries recorded by copy_dir / copy_symlink / copy_file", n, 4)
+    if problems:
+        seen = set()
+        for fn, m, e in problems:
+            if (fn, m) in seen:
+                continue
+            seen.add((fn, m))
+            ck.fail(o, fn, m, m, e.site() if e is not None else None)
+    else:
+        ck.ok(o, "%d recording site(s)" % n, instances=n)
 
 
 def _append_only(ck, w):
